@@ -8,6 +8,7 @@ import (
 	"os/exec"
 	"path/filepath"
 	"runtime/debug"
+	"sort"
 	"strings"
 
 	"sfcheck/core"
@@ -303,4 +304,34 @@ func thorough(c *core.Ctx, ch *Check, o Options) {
 	c.Extra["variants_applied"] = applied
 	c.Extra["variants_detected"] = detected
 	fmt.Printf("sfcheck %s thorough: %d configurations; sensitivity: %d seeded changes applied to a scratch copy of the current tree, %d detected\n", o.Prop, len(cfgs), applied, detected)
+}
+
+// DumpFuncs prints the names of all functions and methods declared in the module's packages (used to regenerate
+// an/known_funcs.go, the vocabulary of function names the rules were written against).
+func DumpFuncs(repo, verif string) int {
+	c, err := core.Load(repo, verif, "C00", "quick", core.Config{Name: "default+verif", Tags: "verif"}, true)
+	if err != nil {
+		fmt.Println(err)
+		return 2
+	}
+	var names []string
+	for path, p := range c.ByPath {
+		if !strings.HasPrefix(path, core.ModPath) {
+			continue
+		}
+		sp := c.Prog.Package(p.Types)
+		if sp == nil {
+			continue
+		}
+		for _, fn := range pkgFuncs(sp) {
+			if fn.Parent() == nil && fn.Synthetic == "" {
+				names = append(names, fn.String())
+			}
+		}
+	}
+	sort.Strings(names)
+	for _, n := range names {
+		fmt.Println(n)
+	}
+	return 0
 }
